@@ -81,10 +81,25 @@ def huge_number_schemas():
     return out
 
 
+def two_keywords_one_side():
+    """integers that state BOTH the inclusive and the numeric exclusive keyword of one side, the exclusive one the tighter and exactly one past a limit
+    of a sized Go type, the inclusive one outside that type (minimum 0, maximum 1000, exclusiveMaximum 256): under --min-sized-ints whatever bound
+    survives the narrowing must still be a constant of the narrowed type"""
+    out = []
+    for lo, hi in ((0, 255), (0, 65535), (-128, 127), (-32768, 32767), (0, 4294967295), (-2147483648, 2147483647)):
+        props = {"up": {"type": "integer", "minimum": lo, "maximum": hi + 745, "exclusiveMaximum": hi + 1},
+                 "down": {"type": "integer", "maximum": hi, "minimum": lo - 745, "exclusiveMinimum": lo - 1},
+                 "both": {"type": "integer", "minimum": lo - 3, "exclusiveMinimum": lo - 1, "maximum": hi + 3, "exclusiveMaximum": hi + 1},
+                 "nul": {"type": ["integer", "null"], "minimum": lo, "maximum": hi + 745, "exclusiveMaximum": hi + 1}}
+        out.append({"type": "object", "properties": props, "required": ["up"], "$defs": {"D": props["both"]}})
+    return out
+
+
 def run(ctx):
     ctx.proof_step(PROPS_FILE)
     rng = ctx.rng
     schemas = [("extension-types", s) for s in extension_schemas()] + [("huge-number-bounds", s) for s in huge_number_schemas()]
+    schemas += [("two-keywords-one-side", s) for s in two_keywords_one_side()]
     for fam, lst in (("strings", c06.systematic()[::5]), ("numbers", c05.e2e_systematic(ctx)[::9] + c05.e2e_fractional()[::4]), ("arrays", c07.systematic()[::6]),
                      ("enums", c08.systematic()[::4]), ("defaults", [x[0] for x in c09.systematic()[::6]]), ("special", c12.SPECIAL)):
         schemas += [(fam, s) for s in lst]
@@ -109,6 +124,8 @@ def run(ctx):
         optsets = [OPTS[i % len(OPTS)], OPTS[(i * 7 + 3) % len(OPTS)]] if ctx.tier == "quick" else OPTS
         if fam == "extension-types" and ctx.tier == "quick":
             optsets = [{}, {"extra_imports": True}]
+        if fam == "two-keywords-one-side":
+            optsets = [{"min_sized_ints": True}, {"min_sized_ints": True, "extra_imports": True}, {}]
         for oi, opts in enumerate(optsets):
             cid = "p%do%d" % (i, oi)
             doc = with_texts(sc, rng) if (i + oi) % 2 == 0 else sc
